@@ -1593,7 +1593,7 @@ def _loss_factory(kind, rng, n, cplx):
 HEAP_KINDS = ["SquaredL2Loss", "Loss+L1", "Loss+Huber", "SquaredL2SquaredAbsLoss", "SquaredL2AbsLoss", "PoissonLoss"]
 
 
-def run_history(mk, ops, handles=None, grab_all=False):
+def run_history(mk, ops, handles=None, grab_all=False, use_x=None):
     """replay a history on real objects (`touch` = take `obj.hessian`: no effect on the model, which has no cache).
     If `handles` is a list, every Hessian operator taken is KEPT there as (object index, operator) so that it can
     be applied after the rest of the history (`Heap.hessHandleApply`); `grab_all`: also take one from every
@@ -1601,6 +1601,19 @@ def run_history(mk, ops, handles=None, grab_all=False):
     objs = []
     for op in ops:
         k = op["k"]
+        if k == "use":
+            # the object is USED (value, gradient, Hessian) before later objects are derived from it: no effect on the
+            # model; on the real objects this is what builds any lazily created / cached closure
+            o = objs[op["obj"]]
+            if use_x is not None:
+                _ = o(use_x)
+                _ = o.grad(use_x)
+                if hasattr(o, "hessian"):
+                    try:
+                        _ = o.hessian(use_x)
+                    except NotImplementedError:
+                        pass
+            continue
         if k == "touch":
             o = objs[op["obj"]]
             if hasattr(o, "hessian"):
@@ -1634,11 +1647,11 @@ def heap_oracle_factory(kind, seed_state):
         rng = np.random.Generator(np.random.PCG64(case["factory_seed"]))
         cplx, n = case["cplx"], case["n"]
         mk = _loss_factory(case["kind"], rng, n, cplx)
-        handles = []
-        objs = run_history(mk, case["ops"], handles, grab_all=bool(case.get("grab_all")))
         dt = np.complex128 if cplx else np.float64
         x = G.dec(case["x"], (n,), cplx)
         X = snp.array(np.asarray(x, dtype=dt))
+        handles = []
+        objs = run_history(mk, case["ops"], handles, grab_all=bool(case.get("grab_all")), use_x=X)
         rr = np.random.Generator(np.random.PCG64(99))
         for i, o in enumerate(objs):
             g = np.asarray(o.grad(X)).ravel()
@@ -1714,9 +1727,13 @@ def stream_heap(ctx, model):
                 ops.append({"k": "set", "obj": int(rng.integers(cnt)), "s": G.dyscalar(rng)})
             if rng.random() < 0.35:
                 ops.append({"k": "touch", "obj": int(rng.integers(cnt))})
+            if rng.random() < 0.4:
+                ops.append({"k": "use", "obj": int(rng.integers(cnt))})
+        if rng.random() < 0.5:
+            ops.insert(1, {"k": "use", "obj": 0})  # differentiate the first loss before anything is derived from it
         mops = []
         for op in ops:
-            if op["k"] == "touch":
+            if op["k"] in ("touch", "use"):
                 continue
             o = {"k": op["k"]}
             for key in ("s", "c"):
@@ -1733,7 +1750,8 @@ def stream_heap(ctx, model):
             x = G.dy(rng, (n,), cplx, nz=True)
         X = snp.array(np.asarray(x, dtype=dt))
         handles = []
-        objs = run_history(mk, ops, handles)
+        objs = run_history(mk, ops, handles, use_x=X)
+        ctx.count("heap:uses-before-deriving", sum(1 for o in ops if o["k"] == "use"))
         unit = mk(1.0)
         base_val = float(unit(X))
         base_grad = np.asarray(unit.grad(X)).ravel().astype(np.complex128)
@@ -1769,8 +1787,9 @@ def stream_heap(ctx, model):
 
 
 def _heap_histories(depth):
-    """ALL histories `new; op_1; ...; op_k` (k <= depth) over {new, c*obj, obj*c, obj/c, obj.set_scale} with every
-    choice of the object operated on (fixed dyadic constants: the machine's behaviour does not depend on them)"""
+    """ALL histories `new; op_1; ...; op_k` (k <= depth) over {new, c*obj, obj*c, obj/c, obj.set_scale, USE obj (value,
+    grad, hessian evaluated at that moment)} with every choice of the object operated on — so every prefix of uses
+    precedes every rescaling (fixed dyadic constants: the machine's behaviour does not depend on them)"""
     out = []
 
     def rec(ops, cnt, k):
@@ -1783,9 +1802,12 @@ def _heap_histories(depth):
             rec(ops + [{"k": "mul", "obj": o, "c": -0.5, "side": "r"}], cnt + 1, k - 1)
             rec(ops + [{"k": "div", "obj": o, "c": 4.0}], cnt + 1, k - 1)
             rec(ops + [{"k": "set", "obj": o, "s": 0.75}], cnt, k - 1)
+            if not (ops and ops[-1]["k"] == "use" and ops[-1]["obj"] == o):
+                rec(ops + [{"k": "use", "obj": o}], cnt, k - 1)  # value/grad/hessian of obj evaluated at this moment
 
     rec([{"k": "new", "s": 1.5}], 1, depth)
-    return out
+    # a history ending in `use` tests nothing new
+    return [h for h in out if h[-1]["k"] != "use"]
 
 
 def stream_heap_exhaustive(ctx, model):
@@ -1807,6 +1829,8 @@ def stream_heap_exhaustive(ctx, model):
     for ops in hs:
         mops = []
         for op in ops:
+            if op["k"] == "use":
+                continue
             o = {"k": op["k"]}
             for key in ("s", "c"):
                 if key in op:
@@ -1816,7 +1840,7 @@ def stream_heap_exhaustive(ctx, model):
             mops.append(o)
         got = model.call("heap", ops=mops)
         handles = []
-        objs = run_history(mk, ops, handles, grab_all=True)
+        objs = run_history(mk, ops, handles, grab_all=True, use_x=X)
         case = {"kind": "SquaredL2Loss", "cplx": cplx, "n": n, "factory_seed": fseed, "ops": ops, "x": G.enc(x), "grab_all": True}
         ctx.case({"tag": "heap_exhaustive", "ops": [o["k"] for o in ops]}, ("heapx", tuple((o["k"], o.get("obj"), o.get("side")) for o in ops)))
         ctx.count("heapx:histories")
@@ -1841,7 +1865,7 @@ def stream_heap_exhaustive(ctx, model):
         else:
             _check_handles(ctx, case, handles, got, unit, X, orc)
     ctx.extra.setdefault("exhaustive_scopes", {})["loss copy/re-bind machine"] = (
-        f"all {len(hs)} histories new;op1..opk, k<={depth}, ops in {{new, c*obj, obj*c, obj/c, set_scale}} x every object")
+        f"all {len(hs)} histories new;op1..opk, k<={depth}, ops in {{new, c*obj, obj*c, obj/c, set_scale, use(value/grad/hessian)}} x every object")
     ctx.extra["exhaustive_scopes"]["Function/cvjp argument slots"] = "all (index, arity) with arity <= 4"
     ctx.extra["exhaustive_scopes"]["linear_adjoint dtype configurations"] = "all 8 (primal kinds)^2 x output kind; all 4 single-primal cases"
 
